@@ -8,6 +8,7 @@ Definition run_C43 (v : val) : val :=
   match v with
   | VB pl => let '(out, good) := remove_padding pl in VL [VB out; VZ good]
   | VL [VZ 2; VZ vers; VZ clen; VB full] => vbool (cbc_record_ok vers clen 20 full)
+  | VL [VZ 3; VB pl] => let '(out, good) := remove_padding_ssl30 pl in VL [VB out; VZ good]
   | _ => VErr 0
   end.
 Definition agree_C43 (i o : val) : bool := val_eqb (run_C43 i) o.
@@ -16,6 +17,7 @@ Definition prop_C43 (i o : val) : bool :=
   match i with
   | VB pl => let '(out, good) := spec_remove pl in val_eqb o (VL [VB out; VZ good])
   | VL [VZ 2; VZ vers; VZ clen; VB full] => val_eqb o (vbool (spec_record_ok vers clen 20 full))
+  | VL [VZ 3; VB pl] => let '(out, good) := spec_remove_ssl30 pl in val_eqb o (VL [VB out; VZ good])
   | _ => false
   end.
 Definition kf_C43 (i : val) : Z := 0.
